@@ -7,7 +7,7 @@
 From Coq Require Import List Bool Arith.
 Import ListNotations.
 Require Import MV.Model.Orch MV.Proofs.OrchP MV.Model.Worker MV.Spec.WorkerSpec.
-Require Import MV.Proofs.WorkerP MV.Proofs.WorkerExitP MV.Proofs.WorkerRefP MV.Proofs.WorkerWitP.
+Require Import MV.Proofs.WorkerP MV.Proofs.WorkerExitP MV.Proofs.WorkerRefP MV.Proofs.WorkerStaleP MV.Proofs.WorkerStreamP MV.Proofs.WorkerLiveP MV.Proofs.WorkerWitP.
 
 Theorem Worker_wf_plan_ok : forall order p, wf_plan order p = true -> plan_ok p /\ NoDup (map sid p).
 Proof. exact wf_plan_ok. Qed.
@@ -73,13 +73,61 @@ Theorem Worker_drop_failure_lost_refuted : exists st, exec (wc_mp nof) pinit tr_
 Proof. exact worker_drop_failure_lost_refuted_l. Qed.
 Print Assumptions Worker_drop_failure_lost_refuted.
 
-(* Conversely a run WITHOUT any failure can raise (crash point CPoll; not in the model's oracle: nothing fails):
-   a DROP_COMPLETE arriving after the 5 s timeout of wait_for_drop_completion is later taken by poll_result_queues, where
-   UUID(("DROP_COMPLETE", uuid)) raises.  Reproduced on the real code: known finding C06-mp-stale-drop-complete. *)
-Theorem Worker_stale_drop_complete_refuted : exists st, exec wc_stale pinit tr_stale = Some st /\ pc st = PExited XRaisedBody /\
+(* ------------------------------------------------------------------------------------------------------------------ *)
+(* (2b) Conversely: a run WITHOUT any failure does not raise.
+   PRE-10693fe BEHAVIOUR (regression input; `exec_old` = the transition function with the poll_result_queues of the code
+   before repair 10693fe, Model/Worker.v poll_old / step_old): a DROP_COMPLETE arriving after the 5 s timeout of
+   wait_for_drop_completion was later taken by poll_result_queues, where UUID(("DROP_COMPLETE", uuid)) raised - a run in
+   which NOTHING fails ended XRaisedBody.  Was known finding C06-mp-stale-drop-complete, now fixed:10693fe. *)
+Theorem Worker_stale_drop_complete_old_refuted : exists st, exec_old wc_stale pinit tr_stale = Some st /\ pc st = PExited XRaisedBody /\
   failed (o st) = [] /\ replies st = [(1, true); (0, true)] /\ phase (ws st 6) = WKilled.
-Proof. exact stale_drop_complete_refuted_l. Qed.
-Print Assumptions Worker_stale_drop_complete_refuted.
+Proof. exact stale_drop_complete_old_refuted_l. Qed.
+Print Assumptions Worker_stale_drop_complete_old_refuted.
+
+(* The repaired code: that history is no longer a trace (its first label that is not enabled is the OArtifacts after the
+   poll) ... *)
+Theorem Worker_stale_old_history_rejected : exec wc_stale pinit tr_stale = None /\
+  first_bad wc_stale pinit tr_stale 0 = Some (List.length tr_stale_prefix).
+Proof. exact stale_old_history_rejected_l. Qed.
+Print Assumptions Worker_stale_old_history_rejected.
+
+(* ... and FOR ALL plans, assignments, oracles and interleavings: in a trace that contains no failure label (no WFail, no
+   crash point of the main thread: OCollect false / OExec false / OSendFail / OArtifacts false - polls taking stale
+   acknowledgements, timed-out waits, a swallowed final-drop failure and even a crashed drop in a worker are all allowed)
+   the error register stays empty, no failure report exists, and the exit kind, if the run has left the loop, is
+   XNormal or XAbandon - never XRaisedBody / XRaisedHead / XFinallyCrash. *)
+Theorem Worker_stale_ack_harmless : forall c tr st, exec c pinit tr = Some st -> fault_free tr ->
+  failed (o st) = [] /\ (forall s, ~ In (s, false) (replies st)) /\
+  forall x, xk (pc st) = Some x -> x = XNormal \/ x = XAbandon.
+Proof. exact stale_ack_harmless_l. Qed.
+Print Assumptions Worker_stale_ack_harmless.
+
+(* a poll never leaves the loop: it moves the main thread from the visit to its done-test, adds exactly the step results
+   it took to `done` (a DROP_COMPLETE contributes nothing) and touches nothing but result queues *)
+Theorem Worker_poll_never_raises : forall c st taken st', step c st (OPoll taken) = Some st' ->
+  (exists i, pc st = PVisit i /\ pc st' = PPolled i) /\
+  o st' = fold_left (fun a s => add_done s a) (polled_dones taken) (o st) /\
+  (forall w, same_but_resq (ws st' w) (ws st w)) /\
+  sc st' = sc st /\ tasks st' = tasks st /\ flight st' = flight st /\ sent st' = sent st /\ replies st' = replies st /\
+  dropfail st' = dropfail st /\ undelivered st' = undelivered st.
+Proof. exact poll_never_raises_l. Qed.
+Print Assumptions Worker_poll_never_raises.
+
+(* a stale acknowledgement taken by a poll - at WHATEVER position of the iteration over the result queues - changes nothing
+   except that it has left worker w's result queue: the poll without it is enabled as well and leads to the same state
+   with the DROP_COMPLETE still at the head of w's lane *)
+Theorem Worker_stale_ack_only_queue : forall c st pre w post st', step c st (OPoll (pre ++ (w, RDropComplete) :: post)) = Some st' ->
+  exists st'', step c st (OPoll (pre ++ post)) = Some st'' /\ differ_by_ack st' st'' w.
+Proof. exact stale_ack_only_queue_l. Qed.
+Print Assumptions Worker_stale_ack_only_queue.
+
+(* the witness run of the old finding now completes: the acknowledgement is consumed, the third step is collected *)
+Example Worker_ex_stale_fixed : exists st, exec wc_stale pinit tr_stale_fixed = Some st /\ pc st = PExited XNormal /\
+  failed (o st) = [] /\ replies st = [(2, true); (1, true); (0, true)] /\ results (o st) = [2; 1; 0] /\ flight st = [] /\
+  resq (ws st 5) = [] /\ phase (ws st 5) = WKilled /\ phase (ws st 6) = WExited.
+Proof. exact stale_drop_complete_fixed_l. Qed.
+Example Worker_ex_stale_fixed_fault_free : fault_free tr_stale_fixed.
+Proof. exact stale_fixed_fault_free_l. Qed.
 
 (* ================================================================================================================== *)
 (* (3) refinement.  (a) Every `stable` invariant of Model/Orch.v (preserved by visit, bump, drain, worker_done - the form
@@ -118,7 +166,7 @@ Proof. exact refinement_outcome_l. Qed.
 Print Assumptions Worker_refinement_outcome.
 
 (* ================================================================================================================== *)
-(* (4) EVERY exit path (normal, error at the loop head, exception in the loop body: CPoll / CResult / CPrepare, consumer
+(* (4) EVERY exit path (normal, error at the loop head, exception in the loop body: CResult / CPrepare / CSend, consumer
    abandoning the stream) ends with every started worker terminated (processes) and joined, no worker alive - hence no
    worker waiting on a queue -, and every dataset key registered by a worker dropped (C09 at protocol level).
    Full statement: for every x.  It FAILS for x = XFinallyCrash and under a failing final drop (witnesses below), so: *)
@@ -148,6 +196,69 @@ Proof. exact store_leak_final_drop_refuted_l. Qed.
 Print Assumptions Worker_store_leak_final_drop_refuted.
 
 (* ================================================================================================================== *)
+(* (5) what the consumer of compute_stream receives.  The drain of one loop iteration hands its items over one at a time
+   (PYield pending: the consumer holds the head of `pending`; ONext = it asks for the next one).  In every reachable state:
+   the pending items are a segment of Orch.v's `yielded`; results are lost (ghost `undelivered` non-empty) ONLY when the
+   consumer closed the stream (exit kind XAbandon, or XFinallyCrash when set_artifacts raised after that), and what is lost is
+   exactly the part of that drain behind the item the consumer held - at least one item of the drain (`pre`) was delivered.
+   No hypothesis about the plan. *)
+Theorem Worker_stream_delivery : forall c st, reach c st ->
+  (forall pend, pc st = PYield pend ->
+     pend <> [] /\ undelivered st = [] /\ exists pre rest, yielded (o st) = pre ++ pend ++ rest) /\
+  (undelivered st <> [] ->
+     (xk (pc st) = Some XAbandon \/ pc st = PExited XFinallyCrash) /\
+     exists pre rest, pre <> [] /\ yielded (o st) = pre ++ undelivered st ++ rest).
+Proof. exact stream_delivery_l. Qed.
+Print Assumptions Worker_stream_delivery.
+
+(* what is lost was a properly collected result (a completed collecting step of the plan whose outputs are finished) and was
+   not also delivered (`yielded` has no duplicates): received = yielded minus undelivered, as counted by chk_proto *)
+Theorem Worker_undelivered_sound : forall c, plan_ok (cplan c) -> forall st, reach c st -> forall x, In x (undelivered st) ->
+  NoDup (yielded (o st)) /\ In x (yielded (o st)) /\
+  exists s, In s (cplan c) /\ sid s = x /\ collects s = true /\ In x (done (o st)) /\ incl (uuids s) (finished (o st)).
+Proof. exact undelivered_sound_l. Qed.
+Print Assumptions Worker_undelivered_sound.
+
+(* ================================================================================================================== *)
+(* (6) what the protocol never does.
+   (a) A step result that wait_for_drop_completion took from a result queue and put back (ORequeue) stays in the worker's
+   put-back lane until a POLL takes it: no other transition removes it - in particular a timed-out wait (OTimeout) changes
+   the program counter and nothing else.  Stated for one transition and for a whole trace. *)
+Theorem Worker_requeued_survive_timeout : forall c, plan_ok (cplan c) -> forall st, reach c st -> forall l st', step c st l = Some st' ->
+  forall w s, In s (requeued (ws st w)) ->
+  In s (requeued (ws st' w)) \/ exists taken, l = OPoll taken /\ In (w, RDone s) taken.
+Proof. exact step_requeued. Qed.
+Print Assumptions Worker_requeued_survive_timeout.
+
+Theorem Worker_requeued_until_polled : forall c, plan_ok (cplan c) -> forall tr st st', reach c st -> exec c st tr = Some st' ->
+  forall w s, In s (requeued (ws st w)) ->
+  In s (requeued (ws st' w)) \/ exists taken, In (OPoll taken) tr /\ In (w, RDone s) taken.
+Proof. exact exec_requeued. Qed.
+Print Assumptions Worker_requeued_until_polled.
+
+Theorem Worker_timeout_changes_only_pc : forall c st w st', step c st (OTimeout w) = Some st' ->
+  ws st' = ws st /\ o st' = o st /\ tasks st' = tasks st /\ flight st' = flight st /\ sent st' = sent st /\ replies st' = replies st /\
+  exists i, pc st = PWait i w /\ pc st' = PVisit (S i).
+Proof. exact timeout_keeps_l. Qed.
+Print Assumptions Worker_timeout_changes_only_pc.
+
+(* a put-back result is the success report of a step that does not count as done yet: the run cannot exit normally while
+   it is pending (so losing it would make the run spin for ever: every step must be done at a normal exit) *)
+Theorem Worker_requeued_pending : forall c, plan_ok (cplan c) -> forall st, reach c st -> forall w s, In s (requeued (ws st w)) ->
+  In (s, true) (replies st) /\ ~ In s (done (o st)) /\ xk (pc st) <> Some XNormal.
+Proof. exact requeued_pending_l. Qed.
+Print Assumptions Worker_requeued_pending.
+
+(* (b) A worker only ends by a failure of its step (WFail), a crash in its drop path (WDropCrash), its LAST drop
+   (WDropAck _ true _), terminate() in the finally block (OTerminate) or - THREADING, one thread per step - by finishing its
+   step (WDone).  There is no transition by which an idle worker gives up waiting for a command, however long the main
+   thread (e.g. suspended at a yield by a slow consumer) sends none.  No hypothesis about the plan. *)
+Theorem Worker_death_causes : forall c st, reach c st -> forall l st' w, step c st l = Some st' ->
+  dead (phase (ws st w)) = false -> dead (phase (ws st' w)) = true -> death_cause c w l.
+Proof. exact death_causes_l. Qed.
+Print Assumptions Worker_death_causes.
+
+(* ================================================================================================================== *)
 (* non-vacuity *)
 Example Worker_ex_plan_ok : plan_ok wp2 /\ NoDup (map sid wp2).
 Proof. exact wp2_ok. Qed.
@@ -161,6 +272,22 @@ Proof. exact ex_mp_ok_l. Qed.
 Example Worker_ex_thr_fail : exists st, exec (wc_thr fail1) pinit tr_thr_fail = Some st /\ pc st = PExited XRaisedHead /\
   failed (o st) = [1] /\ done (o st) = [0] /\ results (o st) = [] /\ joined (ws st 0) = true /\ joined (ws st 1) = true.
 Proof. exact ex_thr_fail_l. Qed.
+(* crash point CSend (repair d86b7a0: a step that cannot be pickled raises in send_command): the run raises, the worker
+   that was already started - with or without an earlier command - is terminated and joined *)
+Example Worker_ex_sendfail : exists st, exec (wc_mp nof) pinit tr_sendfail = Some st /\ pc st = PExited XRaisedBody /\
+  sent st = [(5, 0)] /\ phase (ws st 5) = WKilled /\ joined (ws st 5) = true /\ running (o st) = [2; 1].
+Proof. exact ex_sendfail_l. Qed.
+Example Worker_ex_sendfail_new_worker : exists st, exec (wc_mp nof) pinit tr_sendfail_new = Some st /\ pc st = PExited XRaisedBody /\
+  sent st = [] /\ tasks st = [5] /\ phase (ws st 5) = WKilled /\ joined (ws st 5) = true.
+Proof. exact ex_sendfail_new_l. Qed.
+(* a THREADING stream closed after the first of two items of one drain: the second result is lost, both threads joined;
+   the same run consumed to the end *)
+Example Worker_ex_partial_abandon : exists st, exec wc_thr_stream pinit tr_partial_abandon = Some st /\ pc st = PExited XAbandon /\
+  yielded (o st) = [1; 0] /\ undelivered st = [0] /\ joined (ws st 0) = true /\ joined (ws st 1) = true.
+Proof. exact ex_partial_abandon_l. Qed.
+Example Worker_ex_partial_full : exists st, exec wc_thr_stream pinit tr_partial_full = Some st /\ pc st = PExited XNormal /\
+  yielded (o st) = [1; 0] /\ undelivered st = [].
+Proof. exact ex_partial_full_l. Qed.
 (* the projection of the fault-free run and its Orch.v outcome *)
 Example Worker_ex_projection : fst (proj (wc_mp nof) pinit tr_mp_ok ([], [])) = [EScan; EDone 0 true; EDone 1 true; EScan] /\
   loop_head wp2 (run false false nofail wp2 (fst (proj (wc_mp nof) pinit tr_mp_ok ([], [])))) = ExitNormal.
